@@ -348,12 +348,48 @@ def u6(ctx):
         conts = [n for n in cfg.nodes if n.id in body and n.kind == "stmt" and isinstance(n.ast, ast.Continue)]
         if not conts:
             obs.append(ctx.ok(fi.qualname, where(fi, loops[0]), "no unchanged-file shortcut", "every listed file is parsed"))
+        du = DefUse(cfg)
+        lp = loops[0]
+
+        def fwd_lookup_of_listed_name(o) -> bool:
+            """origin o is `self._fname_to_uid[<listed name>]` / `.get(<listed name>)`, component 0 (the etag)."""
+            if o.kind != "expr" or o.leaf is None or o.path != (0,):
+                return False
+            x = o.leaf
+            key = None
+            if isinstance(x, ast.Subscript) and dotted(x.value) == FWD:
+                key = x.slice
+            elif isinstance(x, ast.Call) and isinstance(x.func, ast.Attribute) and x.func.attr == "get" and dotted(x.func.value) == FWD and x.args:
+                key = x.args[0]
+            if key is None:
+                return False
+            ko = origins(du, o.node, key)
+            return bool(ko) and all(k.kind == "elem" and k.node is lp and k.path[:1] == (0,) for k in ko)
+
         for c in conts:
             req = cfg.required_conditions(c)
             keyed = False
-            for t, pol in req:
-                if pol and isinstance(t, ast.Compare) and isinstance(t.ops[0], ast.Eq) and FWD in src(t) and "[name]" in src(t).replace(" ", "") and "etag" in src(t):
-                    keyed = True
+            for tn in [t_ for t_ in cfg.nodes if t_.kind == "test" and t_.id in body]:
+                t = tn.ast
+                if not (isinstance(t, ast.Compare) and len(t.ops) == 1 and isinstance(t.ops[0], (ast.Eq, ast.NotEq))):
+                    continue
+                same = "t" if isinstance(t.ops[0], ast.Eq) else "f"
+                if c.id in cfg.reachable([m for m, l in lp.succ if l == "loop"], block_nodes=[lp],
+                                         block_edges=[(tn, m2, l2) for m2, l2 in tn.succ if l2 == same]):
+                    continue   # the skip does not require this comparison to hold
+                sides = [t.left, t.comparators[0]]
+                from .common import drop_none
+                for a_, b_ in (sides, sides[::-1]):
+                    oa = drop_none(cfg, tn, a_.value if isinstance(a_, ast.Subscript) and isinstance(a_.value, ast.Name) else a_, origins(du, tn, a_))
+                    if oa and all(fwd_lookup_of_listed_name(o) for o in oa):
+                        ob_ = origins(du, tn, b_)
+                        # the other side is this iteration's etag: derived from the listing element
+                        from ..dataflow import depends_on
+                        listed = any(o.kind == "elem" and o.node is lp for o in ob_) or any(
+                            isinstance(x, ast.Name) and any(o2.kind == "elem" and o2.node is lp for o2 in origins(du, o.node, x))
+                            for o in ob_ if o.leaf is not None for x in ast.walk(o.leaf))
+                        if listed:
+                            keyed = True
             obs.append(ctx.ob(keyed, fi.qualname, where(fi, c), "shortcut keyed by (name, etag)",
                               "skip only if %s[name] holds this etag" % FWD.split(".")[-1],
                               "a listed file is skipped under `%s`, which is not 'this NAME is already mapped with this etag': the same bytes under "
